@@ -40,6 +40,7 @@ def scan_forbidden():
                 bad.append("%s:%d: %s" % (os.path.relpath(f, VERIF), ln, w))
     return bad
 
+TRANSLATED_USERS = {"C10", "C13", "C19"}
 def proof_stage(pid, tier, log):
     """returns dict(obligations, discharged, names, failures[list of str], assumptions)"""
     res = {"obligations": 0, "discharged": 0, "theorems": [], "failures": [], "axioms": []}
@@ -48,9 +49,15 @@ def proof_stage(pid, tier, log):
         res["failures"].append("forbidden constructs: " + "; ".join(bad[:10]))
     pre = getattr(importlib.import_module("props." + pid.lower()), "pre_proof", None)
     if pre: pre(log)
+    # the translated part of the model is regenerated from /repo's current source on every run (fail-closed translator)
+    rc_t, out_t = sh("python3 %s" % os.path.join(VERIF, "tools", "translate.py"), 120, VERIF)
+    log.append("translate: rc=%d %s" % (rc_t, out_t[-500:]))
+    if rc_t != 0 and pid in TRANSLATED_USERS:
+        res["failures"].append("the source translator no longer accepts a translated function (%s)" % out_t.strip()[-300:])
     if not os.path.exists(os.path.join(COQ, "Makefile")):
         sh("coq_makefile -f _CoqProject -o Makefile", 120, COQ)
-    rc, out = sh("make -j16", 3000, COQ)
+    # only this property's theorems and what they depend on: a broken proof elsewhere is reported by the property it belongs to
+    rc, out = sh("make -j16 theories/Props/%s.vo" % pid, 3000, COQ)
     log.append("make: rc=%d\n%s" % (rc, out[-3000:]))
     pf = os.path.join(COQ, "theories", "Props", pid + ".v")
     src = open(pf).read()
@@ -193,6 +200,14 @@ def main():
                 for c in cases:
                     o = mod.oracle(c, impl0[c["_id"]])
                     if o and o.get("violates"): found = (c, impl0[c["_id"]], o); break
+                if not found and hasattr(mod, "search_cases"):
+                    # a larger domain, used only to look for a concrete failing input once a proof obligation has broken
+                    extra = mod.search_cases(random.Random((seed, pid, "search").__repr__()))
+                    for i, c in enumerate(extra): c["_id"] = i
+                    impl1 = common.run_impl(pid, extra, seeds[:1], getattr(mod, "ENV", None))[seeds[0]] if extra else []
+                    for c in extra:
+                        o = mod.oracle(c, impl1[c["_id"]])
+                        if o and o.get("violates"): found = (c, impl1[c["_id"]], o); break
             except Exception: log.append(traceback.format_exc())
         payload = {"obligation": "; ".join(pr["failures"]), "what": "proof obligation no longer checks", "theorems": pr["theorems"]}
         if found:
